@@ -452,6 +452,10 @@ twin('c12-prefix-textual-prefix', ['C12'], 'c99f22c', ['C12.D3'], 'pre-fix twin'
 twin('c12-prefix-no-body-matches', ['C12'], '96cc097', ['C12.D4'], 'pre-fix twin')
 mut('c12-member-not-stored', ['C12'], RT,
     [("        if member:\n            r.add('member', member)\n", "")], ['C12.D1'])
+mut('c12-add-files-the-other-keys', ['C12'], RT,
+    [("        if key in ('_messageType', 'interface', 'member', 'path',\n                   'destination'):",
+      "        if key not in ('_messageType', 'interface', 'member', 'path',\n                       'destination'):")],
+    ['C12.D1'], note='Rule.add: in -> not in, branches kept: the generically compared keys become attributes nobody evaluates and the dedicated ones go to `simple`')
 mut('c12-destination-key-typo', ['C12'], RT,
     [("            r.add('destination', destination)", "            r.add('dest', destination)")], ['C12.D1'])
 mut('c12-argpath-one-way', ['C12'], RT,
